@@ -199,7 +199,43 @@ def r3(ctx, fam):
               'in _handle_connect)', where=where(f))
 
 
+def r4_ownership(ctx, fam):
+    """only get_session / save_session touch the engine.io session of a
+    transport (no other path reads or writes user sessions)"""
+    m = ctx.model
+    S = SERVER[fam]
+    n = 0
+    for cname in (S, 'BaseServer'):
+        for f in m.cls(cname).methods.values():
+            for node in walk_own(f.node):
+                if isinstance(node, ast.Call) and U(node.func) in (
+                        'self.eio.get_session', 'self.eio.save_session',
+                        'self.eio.session'):
+                    n += 1
+                    ctx.check(f.name in ('get_session', 'save_session'),
+                              '%s.%s' % (cname, f.name), 'engine.io session '
+                              'accessed only by get_session/save_session',
+                              key='session-owner', reason='%s reads or '
+                              'writes the engine.io session directly'
+                              % f.name, where=where(f, node))
+    if n < 2:
+        raise AnalysisError('C16.R4: session accessors not found in ' + S)
+    # the manager never holds session data
+    for cname in ('BaseManager',):
+        for f in m.cls(cname).methods.values():
+            for node in walk_own(f.node):
+                if isinstance(node, ast.Attribute) and \
+                        node.attr in ('get_session', 'save_session'):
+                    ctx.bad('%s.%s' % (cname, f.name), 'session-in-manager',
+                            'the manager touches user sessions',
+                            where(f, node))
+
+
 def run(ctx):
+    ctx.rule('C16.R4', 'only get_session/save_session access the '
+             'engine.io session', floor=4)
+    for fam in SA:
+        r4_ownership(ctx, fam)
     ctx.rule('C16.R1', 'get_session/save_session use the same transport '
              'derivation and the same namespace key', floor=4)
     for fam in SA:
